@@ -25,6 +25,11 @@ Definition event_eqb (a b : event) : bool :=
   | _, _ => false
   end.
 
+(* BEP 15 (UDP tracker protocol) announce event codes: 0 none, 1 completed, 2 started, 3 stopped.
+   Fixed by the protocol, not taken from the source; TrackerUdp writes the raw enum value. *)
+Definition wire_event (e : event) : Z :=
+  match e with EvNone => 0 | EvCompleted => 1 | EvStarted => 2 | EvStopped => 3 end.
+
 (* constants re-extracted from the sources on every run *)
 Definition min_min := Params.trk_min_min_interval.
 Definition max_min := Params.trk_max_min_interval.
